@@ -48,6 +48,10 @@ pub enum OpKind {
     /// adjoint (`&children[1] * delta`): a * b, and the four-operand a * b + c * d
     CLibMul,
     CLib4,
+    /// straight-through estimator: the forward closure is written with a library operator (`x.relu()`, so its result
+    /// arrives with a graph of its own), the derivative handed to `Array::op` is the identity - the user's derivative
+    /// is the one that counts
+    CSte,
 }
 
 impl OpKind {
@@ -97,6 +101,7 @@ impl OpKind {
             CNegF => "custom_neg_forced".into(),
             CNested => "custom_cube_nested".into(),
             CComp => "custom_composite".into(),
+            CSte => "custom_ste_relu".into(),
             CLibMul => "custom_mul_libderiv".into(),
             CLib4 => "custom_fma4_libderiv".into(),
         }
@@ -132,6 +137,7 @@ impl OpKind {
             CNegF => "custom_neg_forced",
             CNested => "custom_cube_nested",
             CComp => "custom_composite",
+            CSte => "custom_ste_relu",
             CLibMul => "custom_mul_libderiv",
             CLib4 => "custom_fma4_libderiv",
         }
@@ -141,14 +147,14 @@ impl OpKind {
         matches!(self, OpKind::CMulF | OpKind::CNegF)
     }
     pub fn is_custom(&self) -> bool {
-        matches!(self, OpKind::CMul | OpKind::CAdd | OpKind::CNeg | OpKind::CFma | OpKind::CCube | OpKind::CMulF | OpKind::CNegF | OpKind::CNested | OpKind::CLibMul | OpKind::CLib4)
+        matches!(self, OpKind::CMul | OpKind::CAdd | OpKind::CNeg | OpKind::CFma | OpKind::CCube | OpKind::CMulF | OpKind::CNegF | OpKind::CNested | OpKind::CLibMul | OpKind::CLib4 | OpKind::CSte)
     }
     /// integer data stays integer (bit-exact in any evaluation order while magnitudes stay below the bound)
     pub fn is_exact(&self) -> bool {
         use OpKind::*;
         match self {
             Add | Sub | Mul | Neg | Relu | Sum(_) | Reshape(_) | Matmul { .. } | Conv { .. } | CMul | CAdd | CNeg
-            | CFma | CCube | CMulF | CNegF | CNested | CComp | CLibMul | CLib4 => true,
+            | CFma | CCube | CMulF | CNegF | CNested | CComp | CLibMul | CLib4 | CSte => true,
             Scale(s) | Axpy(s) => s.fract() == 0.0,
             _ => false,
         }
@@ -202,6 +208,7 @@ impl OpKind {
                 a[0].zip(a[1], |x, y| x * y)?.zip(a[2], |p, z| p + z)?
             }
             CCube | CNested => a[0].map(|x| x * x * x),
+            CSte => a[0].map(|x| x.ste_relu()),
             CComp => same(a[0], a[1])?.zip(a[1], |x, y| x * y)?.zip(a[0], |p, x| p + x)?,
             CLibMul => same(a[0], a[1])?.zip(a[1], |x, y| x * y)?,
             CLib4 => {
@@ -241,7 +248,7 @@ impl OpKind {
             Reshape(d) => a[0].reshape(d.clone()),
             Matmul { ta, tb, c } => Array::matmul((a[0], *ta), (a[1], *tb), if *c { Some(a[2]) } else { None }),
             Conv { sr, sc } => a[0].conv(a[1], (*sr, *sc)),
-            CMul | CAdd | CNeg | CFma | CCube | CMulF | CNegF | CNested | CLibMul | CLib4 => custom_op(self, a, node_id),
+            CMul | CAdd | CNeg | CFma | CCube | CMulF | CNegF | CNested | CLibMul | CLib4 | CSte => custom_op(self, a, node_id),
             CComp => {
                 let f: ForwardOp = Rc::new(|x: &[&Array]| &(x[0] * x[1]) + x[0]);
                 Array::op(a, f, None)
@@ -338,6 +345,9 @@ fn custom_op(kind: &OpKind, args: &[&Array], node_id: usize) -> Array {
         for o in x.iter().skip(1) {
             assert_eq!(o.dimensions(), x[0].dimensions(), "custom op: operands must have the same shape");
         }
+        if let OpKind::CSte = k {
+            return x[0].relu();
+        }
         let v: Vec<Float> = match k {
             OpKind::CMul | OpKind::CMulF | OpKind::CLibMul => x[0].values().iter().zip(x[1].values()).map(|(a, b)| a * b).collect(),
             OpKind::CLib4 => (0..x[0].values().len()).map(|i| x[0].values()[i] * x[1].values()[i] + x[2].values()[i] * x[3].values()[i]).collect(),
@@ -392,6 +402,7 @@ fn custom_op(kind: &OpKind, args: &[&Array], node_id: usize) -> Array {
                 let g = p.gradient().as_ref().map(|g| g.values().to_vec()).unwrap_or_else(|| vec![0.0 as Float; dv.len()]);
                 vec![mk(g)]
             }
+            OpKind::CSte => vec![opt(0, dv.to_vec())],
             OpKind::CLibMul => vec![if t[0] { Some(&c[1] * d) } else { None }, if t[1] { Some(&c[0] * d) } else { None }],
             OpKind::CLib4 => vec![
                 if t[0] { Some(&c[1] * d) } else { None },
@@ -1051,6 +1062,7 @@ pub fn try_add_op(r: &mut Rng, cfg: &GenCfg, st: &mut GenState) {
         cands.push((OpKind::CCube, vec![a]));
         cands.push((OpKind::CNegF, vec![a]));
         cands.push((OpKind::CNested, vec![a]));
+        cands.push((OpKind::CSte, vec![a]));
         if samea {
             cands.push((OpKind::CMulF, vec![a, b]));
             cands.push((OpKind::CLibMul, vec![a, b]));
@@ -1104,6 +1116,7 @@ pub fn try_add_op(r: &mut Rng, cfg: &GenCfg, st: &mut GenState) {
             cands.push((OpKind::CCube, vec![a]));
             cands.push((OpKind::CNegF, vec![a]));
             cands.push((OpKind::CNested, vec![a]));
+            cands.push((OpKind::CSte, vec![a]));
             if samea {
                 cands.push((OpKind::CMulF, vec![a, b]));
                 cands.push((OpKind::CComp, vec![a, b]));
